@@ -48,7 +48,7 @@ Definition adj_start (n st : Z) : Z := if st <? 0 then Z.max 0 (st + n) else st.
 Definition adj_end (n e : Z) : Z := if e >? n then n else if e <? 0 then Z.max 0 (e + n) else e.
 
 (* first index among the k candidate positions i, i+1, .. (s is the suffix at i) *)
-Fixpoint find_aux (sub s : str) (i : Z) (k : nat) : Z :=
+Fixpoint find_aux (sub s : str) (i : Z) (k : nat) {struct k} : Z :=
   match k with
   | O => -1
   | S k' => if prefixb sub s then i
@@ -56,7 +56,7 @@ Fixpoint find_aux (sub s : str) (i : Z) (k : nat) : Z :=
   end.
 
 (* last index among the k candidate positions i, i+1, .. *)
-Fixpoint rfind_aux (sub s : str) (i : Z) (k : nat) : Z :=
+Fixpoint rfind_aux (sub s : str) (i : Z) (k : nat) {struct k} : Z :=
   match k with
   | O => -1
   | S k' =>
